@@ -64,6 +64,11 @@ def _file_body(draw, heads, globals_all, file_labels, depth, files_left, marker)
         for _ in range(draw(st.integers(0, 2))):
             marker['n'] += 1
             body.insert(draw(st.integers(0, len(body))), {'t': 'data', 'd': '.byte', 'vals': [['num', marker['n'] & 0xFF, 'hex$']]})
+        if draw(st.integers(0, 3)) == 0:
+            # a non-local label in a block that is not compiled: it defines nothing and opens no region
+            j = draw(st.integers(0, len(body)))
+            body[j:j] = [{'t': 'if', 'lhs': ['num', 0, 'dec']}, {'t': 'label', 'name': draw(st.sampled_from(['ghost', '_ghost', head]))},
+                         {'t': 'endif'}]
         if files_left and depth < 2 and draw(st.integers(0, 2)) == 0:
             fname = files_left.pop(0)
             sub_marker = {'n': marker['n'], 'file_defined': set('_' + b for b in BASES if draw(st.booleans()))}
